@@ -91,7 +91,15 @@ func (g *RegexGen) atom(d int) string {
 		}
 	case 9:
 		if d < 3 {
-			return g.pick("flags", "(?i:", "(?s:", "(?i)", "(?U:", "(?m:") + g.concat(d+1) + ifClose(g)
+			switch rapid.IntRange(0, 3).Draw(g.T, "flagform") {
+			case 0:
+				return g.pick("flagonly", "(?i)", "(?s)", "(?m)", "(?U)", "(?is)", "(?i-s)", "(?-i)")
+			case 1:
+				// a group, a flag-only group, then a group whose flags depend on it
+				fl := g.pick("fl", "i", "s", "m", "U")
+				return "(" + g.alt(d+1) + ")(?" + fl + ")(?" + g.pick("fl2", fl, fl+"s", "-"+fl, "i") + ":" + g.concat(d+1) + ")"
+			}
+			return g.pick("flags", "(?i:", "(?s:", "(?is:", "(?U:", "(?m:", "(?i-s:") + g.concat(d+1) + ")"
 		}
 	case 12:
 		// a repeated / dropped non-capturing group, possibly with captures under quantifiers
